@@ -77,7 +77,18 @@ def batch(drv, env, cmds, per_cmd_timeout=5.0, label=""):
         th.join(timeout=2)
         if got >= len(chunk):
             break
-        out[pos + got] = ("hang", "") if status == "hang" else ("crash", err[-6000:])
+        if status == "hang":
+            # only a hang if the command alone, with a minute of patience, does not answer either (loaded machines)
+            try:
+                p1 = subprocess.run([drv], input=(cmds[pos + got] + "\n").encode("latin-1"), stdout=subprocess.PIPE, stderr=subprocess.PIPE, env=env, timeout=60)
+                line1 = p1.stdout.split(b"\n")[0]
+                out[pos + got] = json.loads(line1.decode("latin-1")) if p1.returncode == 0 and line1 else ("crash", p1.stderr.decode("latin-1", "replace")[-6000:])
+            except subprocess.TimeoutExpired:
+                out[pos + got] = ("hang", "")
+            except ValueError:
+                out[pos + got] = {"e": "garbled"}
+        else:
+            out[pos + got] = ("crash", err[-6000:])
         pos += got + 1
         restarts += 1
         if restarts > 3000:
